@@ -66,16 +66,20 @@ structure World where
 
 /-! ## upstream closure -/
 
-def joinOpt : List (Option (List Nat)) → Option (List Nat)
+/-- the loop over the input connections: the first upstream whose recursion blows up ends it
+(the exception propagates), otherwise the union of the results -/
+def dfsAll (rec : Nat → Option (List Nat)) : List Nat → Option (List Nat)
   | [] => some []
-  | none :: _ => none
-  | some a :: r => (joinOpt r).map (a ++ ·)
+  | j :: js =>
+    match rec j with
+    | none => none
+    | some a => (dfsAll rec js).map (a ++ ·)
 
 /-- `get_nodes_in_data_tree`: recursive union over the input connections; running out of `fuel`
 stands for Python's `RecursionError` (⇒ `CircularDataFlowError`) -/
 def dfs (deps : Nat → List Nat) : Nat → Nat → Option (List Nat)
   | 0, _ => none
-  | f + 1, i => (joinOpt ((deps i).map (dfs deps f))).map (i :: ·)
+  | f + 1, i => (dfsAll (dfs deps f) (deps i)).map (i :: ·)
 
 def closureOf (w : World) (t : Nat) : Option (List Nat) := dfs w.deps (w.n + 1) t
 
@@ -192,13 +196,13 @@ def reconnect (g : G) (pairs : List (Nat × Nat)) : G :=
 
 def disconnectRun (g : G) (i : Nat) : G := disconnectChans g (runChans i)
 
-def relabel (lab : Nat → Label) : List Nat → Nat → Label
-  | [] => lab
-  | i :: is => relabel (updF lab i { base := (lab i).base, tag := some i }) is
+/-- `node.label = node.label + str(id(node))` for every member of the closure -/
+def relabel (lab : Nat → Label) (order : List Nat) : Nat → Label :=
+  fun i => if i ∈ order then { base := (lab i).base, tag := some i } else lab i
 
-def unlabel (lab : Nat → Label) : List Nat → Nat → Label
-  | [] => lab
-  | i :: is => unlabel (updF lab i { base := (lab i).base, tag := none }) is
+/-- `node.label = label_map[modified_label]`: the remembered labels are put back -/
+def unlabel (saved lab : Nat → Label) (order : List Nat) : Nat → Label :=
+  fun i => if i ∈ order then saved i else lab i
 
 inductive Outcome | ok | cyclic | execRefused | mixedScope | failed | stuck | badObs
   deriving Repr, DecidableEq
@@ -272,7 +276,7 @@ def upstream (cfg : Cfg) (w : World) (t : Nat) (order chain : List Nat) (fuel : 
             (w2c, cut.2 ++ extra.2, r.2)
         -- the `finally` block
         let g4 := order.foldl disconnectRun w3.g
-        let w4 := { w3 with label := unlabel w3.label order, g := reconnect g4 pairs }
+        let w4 := { w3 with label := unlabel w.label w3.label order, g := reconnect g4 pairs }
         let w5 := match w.parent t with
           | some p => { w4 with starting := updF w4.starting p savedStart }
           | none => w4
